@@ -87,22 +87,63 @@ theorem corruption_counterexample : ¬ corruption_statement := by
   revert this
   decide
 
-/-- Partial result 1 (no assumption on the payload): replacing any character of a
-message line by a byte outside the base64 alphabet — other than CR, LF and the
-'#'-in-first-position of the finding above — is reported as corruption.
-MISSING for the full statement: (a) `v` = another alphabet character (needs the
-CRC-32C burst argument, see `corruption_alphabet_partial` when present);
-(b) `v` = CR, which the base64 decoder silently drops, shifting all later bits —
-CRC-32 cannot exclude a collision there. -/
-theorem corruption_nonalphabet_partial (cfg : Cfg) (p : Bytes) (i : Nat) (v : UInt8)
-    (hi : i < (msgText p).length) (hv : Base64.decChar v = none) (h13 : v ≠ 13) (h10 : v ≠ 10)
-    (hh : ¬ (i = 0 ∧ v = 35)) :
-    readLine cfg ((msgText p).set i v) = .corrupt :=
-  readLine_set_nonalpha cfg p i v hi hv h13 h10 hh
+/-- Partial result 1: EVERY single-byte corruption of a message line is reported as
+corruption (or returns the original message, when the byte only carries bits the
+base64 decoder ignores) — except for the three situations named in the guard:
+  * `v` = '#' in first position: the finding above (`corruption_counterexample`);
+  * `v` = CR: Go's base64 decoder silently drops CR, so one character disappears and
+    every later bit shifts by six — an error pattern for which a 32-bit CRC gives no
+    guarantee (NOT PROVED; a collision would need a crafted payload);
+  * another ALPHABET character at position 5, the one character whose six bits
+    straddle the stored CRC (low 2 bits) and the payload (top 4 bits of its first
+    byte): the damage then touches both sides of the comparison (NOT PROVED).
+Everything else is covered: a byte outside the alphabet makes the text undecodable;
+another alphabet character changes at most two adjacent decoded bytes, either inside
+the stored CRC (then it no longer matches the intact payload) or inside the payload
+(then CRC-32C detects it: bursts of at most 32 bits are always detected —
+`Crc32c.crc32c_window_ne`). -/
+theorem corruption_partial (cfg : Cfg) (p : Bytes) (g : GoodPayload cfg p) (i : Nat) (v : UInt8)
+    (hi : i < (msgText p).length) (h10 : v ≠ 10) (h13 : v ≠ 13) (hh : ¬ (i = 0 ∧ v = 35))
+    (h5 : Base64.decChar v = none ∨ i ≠ 5) :
+    readLine cfg ((msgText p).set i v) = .corrupt ∨ readLine cfg ((msgText p).set i v) = .msg p :=
+  readLine_set_guarded cfg p g i v hi h10 h13 hh h5
 
-/-- the guard of `corruption_nonalphabet_partial` is satisfiable -/
-example : (4 : Nat) < (msgText [0]).length ∧ Base64.decChar 33 = none ∧ (33 : UInt8) ≠ 13 ∧ (33 : UInt8) ≠ 10 ∧
-    ¬ ((4 : Nat) = 0 ∧ (33 : UInt8) = 35) := by decide
+/-- the guard is satisfiable: '!' (outside the alphabet) at position 5, 'A' at position 9 -/
+example : GoodPayload ⟨1000, sizedOK⟩ [3, 1, 2, 3] ∧ (9 : Nat) < (msgText [3, 1, 2, 3]).length ∧
+    (Base64.decChar 33 = none ∨ (5 : Nat) ≠ 5) ∧ (Base64.decChar 65 = none ∨ (9 : Nat) ≠ 5) := by
+  refine ⟨⟨by decide, by decide, by decide⟩, by decide, by decide, by decide⟩
+
+/-- The same inside a whole log: with the byte at offset `i` of the line of message `p`
+replaced, every other line is read exactly as written, and the damaged line is either
+skipped as corruption or read as the original message. (`readAllSkip` continues past
+corruption errors, as `SearchForHeight` does with `IgnoreDataCorruptionErrors`.) -/
+theorem corrupted_log_skip_partial (cfg : Cfg) (before after : List Item)
+    (gb : ∀ i ∈ before, GoodItem cfg i) (ga : ∀ i ∈ after, GoodItem cfg i)
+    (p : Bytes) (g : GoodPayload cfg p) (i : Nat) (v : UInt8)
+    (hi : i < (msgText p).length) (h10 : v ≠ 10) (h13 : v ≠ 13) (hh : ¬ (i = 0 ∧ v = 35))
+    (h5 : Base64.decChar v = none ∨ i ≠ 5) :
+    readAllSkip cfg ((encodeAll (before ++ .msg p :: after)).set ((encodeAll before).length + i) v)
+        = (before.map Event.item ++ Event.skipped :: after.map Event.item, .eof) ∨
+    readAllSkip cfg ((encodeAll (before ++ .msg p :: after)).set ((encodeAll before).length + i) v)
+        = (before.map Event.item ++ Event.item (.msg p) :: after.map Event.item, .eof) := by
+  rw [set_in_line before after p i v hi,
+    readAllSkip_damaged cfg before after gb ga _ (nl_not_mem_set (nl_not_mem_msgText p) h10)]
+  rcases readLine_set_guarded cfg p g i v hi h10 h13 hh h5 with h | h <;> simp [h]
+
+/-- … and for a reader that stops at the first error: everything before the damaged
+line, then a corruption error — or the whole log unchanged. -/
+theorem corrupted_log_partial (cfg : Cfg) (before after : List Item)
+    (gb : ∀ i ∈ before, GoodItem cfg i) (ga : ∀ i ∈ after, GoodItem cfg i)
+    (p : Bytes) (g : GoodPayload cfg p) (i : Nat) (v : UInt8)
+    (hi : i < (msgText p).length) (h10 : v ≠ 10) (h13 : v ≠ 13) (hh : ¬ (i = 0 ∧ v = 35))
+    (h5 : Base64.decChar v = none ∨ i ≠ 5) :
+    readAll cfg ((encodeAll (before ++ .msg p :: after)).set ((encodeAll before).length + i) v)
+        = (before, .corrupt) ∨
+    readAll cfg ((encodeAll (before ++ .msg p :: after)).set ((encodeAll before).length + i) v)
+        = (before ++ .msg p :: after, .eof) := by
+  rw [set_in_line before after p i v hi,
+    readAll_damaged cfg before after gb ga _ (nl_not_mem_set (nl_not_mem_msgText p) h10)]
+  rcases readLine_set_guarded cfg p g i v hi h10 h13 hh h5 with h | h <;> simp [h]
 
 /-- Partial result 2: whatever bytes a line consists of, if the reader accepts it as
 message `p'` then the line base64-decodes to `crc ‖ p'` with `crc = crc32c p'`, `p'`
